@@ -27,6 +27,7 @@ func (x *exec) builtin(st *State, fr *Frame, ins ssa.Instruction, b *ssa.Builtin
 			f := e.ctx.Fun("map.len", []smt.Sort{smt.Ref, smt.Int}, bv64)
 			n := e.ctx.Name("maplen", smt.App(bv64, f, a.one(), smt.IntLit(int64(st.gen*1000000+len(st.heap)))))
 			st.assume(smt.BVCmp("bvsge", n, zero64))
+			st.assume(smt.BVCmp("bvsle", n, smt.BVLit(1<<46, 64))) // a map holds no more entries than memory can
 			return []Value{scalar(tInt, n)}
 		case *types.Pointer:
 			if at, ok := types.Unalias(t.Elem()).Underlying().(*types.Array); ok {
@@ -127,7 +128,7 @@ func (x *exec) appendOp(st *State, s, t Value) Value {
 	x.lastAppendKeep = &keep
 	r := e.newRef(st, "grown")
 	capC := e.ctx.Fresh("apcap", bv64)
-	st.assume(smt.And(smt.BVCmp("bvsle", newLen, capC), smt.BVCmp("bvsle", capC, smt.BVLit(1<<56, 64))))
+	st.assume(smt.And(smt.BVCmp("bvsle", newLen, capC), smt.BVCmp("bvsle", capC, smt.BVLit(1<<46, 64))))
 	for _, l := range e.leaves(elem) {
 		key, mem := x.memArr(st, elem, l)
 		sInner := e.ctx.Name("sIn", smt.Select(mem, sArr))
